@@ -34,7 +34,18 @@ def to_cart(vec_cyl, phi):
     return np.array([vR * np.cos(phi) - vp * np.sin(phi), vR * np.sin(phi) + vp * np.cos(phi), vz])
 
 
-def predict(cfg, rng, q=None):
+def dip_cfgs():
+    """axes with an almost straight point (curvature 4e-4 .. 8e-4 of its rms value) sitting exactly ON a grid node: the Frenet frame is still well defined there
+    (conditioning 1/curvature ~ 1e3), the first-order solution is not -- only the axis clauses are evaluated on these"""
+    out = []
+    for a, nfp, nphi in ((0.1999, 2, 31), (0.19995, 2, 41)):
+        d = np.pi / nphi
+        out.append(dict(rc=[1.0, float(a * np.cos(d))], rs=[0.0, float(-a * np.sin(d))], zs=[0.0, float(0.02 * np.cos(d))], zc=[0.0, float(0.02 * np.sin(d))],
+                        nfp=nfp, etabar=0.9, order='r1', nphi=nphi))
+    return out
+
+
+def predict(cfg, rng, q=None, axis_only=False):
     out, n = [], 0
     if q is None:
         q, _ = build(cfg)
@@ -80,6 +91,8 @@ def predict(cfg, rng, q=None):
         bad('varphi', 'varphi is not zero at phi=0 / increasing / spanning one field period')
     if np.max(np.abs(q.d_varphi_d_phi / sp - q.d_varphi_d_phi[0] / sp[0])) > 1e-12 * abs(q.d_varphi_d_phi[0] / sp[0]):
         bad('dvarphi', 'd_varphi_d_phi is not proportional to the arclength element')
+    if axis_only:
+        return out, n
     # min_R0 against a dense evaluation
     dense = np.linspace(0, 2 * np.pi / q.nfp, 4001)
     _, Rd, _ = curve(cfg, dense)
@@ -124,6 +137,20 @@ def main():
         print(json.dumps(res, default=str)); return
     t0 = time.time(); tried = 0
     nn = a.n if a.mode == 'check' else 10 ** 6
+    for c_ in dip_cfgs():
+        try:
+            import logging, warnings
+            logging.disable(logging.CRITICAL)
+            with warnings.catch_warnings(), np.errstate(all='ignore'):
+                warnings.simplefilter('ignore')
+                q_, _ = build(c_)
+            logging.disable(logging.NOTSET)
+        except Exception:
+            logging.disable(logging.NOTSET)
+            continue
+        v, n = predict(c_, rng, q_, axis_only=True)
+        res['predictions_checked'] += n; res['violations'] += v; res['configs'] += 1
+        dist['curvature-dip'] = dist.get('curvature-dip', 0) + 1
     for c_, q_ in corpus_objects():          # distilled regression inputs first
         v, n = predict(c_, rng, q_)
         res['predictions_checked'] += n; res['violations'] += v; res['configs'] += 1
